@@ -65,6 +65,19 @@ class GeomAdapter(Adapter):
                     fail("min_max_edge", [x(L[0][0]), x(L[-1][1])], [float(h.min_edge), float(h.max_edge)])
                 if [float(v) for v in h.cumulative_frequencies] != [c * 0.5 for c in cum] or float(h.cumulative_frequencies[-1]) != float(h.total):
                     fail("cumulative", [c * 0.5 for c in cum], h.cumulative_frequencies.tolist())
+                # integer contents of every supported width: each bin fits the type, the running sum does not have to
+                for dt in (np.int16, np.int32, np.int64):
+                    ints = [int(c) for c in self.contents[tuple(L)]]
+                    K = int(np.iinfo(dt).max // max(max(ints), 1)) if dt is not np.int64 else 3
+                    hi = self.H1(self.SB(np.array(self.pe.edges(L))), (np.array(ints, dtype=np.int64) * K).astype(dt))
+                    want, run = [], 0
+                    for c in ints:
+                        run += c * K
+                        want.append(run)
+                    got = [int(v) for v in hi.cumulative_frequencies]
+                    if np.dtype(hi.dtype) != np.dtype(dt) or got != want or int(hi.total) != want[-1]:
+                        fail("cumulative", {"dtype": np.dtype(dt).name, "running_sum": want}, {"dtype": str(hi.dtype), "running_sum": got, "total": int(hi.total)})
+                        break
                 dens = np.asarray(h.densities)
                 if not all(self._close(dens[i] * h.bin_sizes[i], freq[i], 2) for i in range(len(L))):
                     fail("densities", freq.tolist(), (dens * h.bin_sizes).tolist())
